@@ -54,6 +54,7 @@ type verifFailingNode struct {
 
 func (n *verifFailingNode) NextAction(ctx context.Context, flow Flow) chan IAction {
 	verifAdd(n.requests, 1)
+	verifLog("request")
 	ch := make(chan IAction, 1)
 	rsp := &FlowActionResponse{err: verifErr{}}
 	if !n.noHandle {
